@@ -282,12 +282,12 @@ PROPS["C04"] = dict(
 
 PROPS["C18"] = dict(
     title="Unacknowledged mode is one-way unless closure is requested; closure works",
-    module="Cfdp.Props.C18l",
+    module="Cfdp.Props.C18m",
     namespace="Cfdp.Loop",
     theorems=["C18_recv_oneway", "C18_recv_silent_without_closure", "C18_complete_means_complete",
               "Cfdp.Send.C18_send_ends_on_eof", "Cfdp.Send.C18_send_waits", "Cfdp.Send.C18_send_reports_outcome",
               "Cfdp.Send.C18_send_ignores_finished_without_closure", "Cfdp.Recv.C18_recv_closure_ends_quietly", "C18_send_data_once",
-              "C18_closure_finished_repeated", "C18_closure_lost_finisheds"],
+              "C18_closure_finished_repeated", "C18_closure_lost_finisheds", "C18_closure_from_eof"],
     engines=["recv", "send"],
     design="§6 C18",
     technique="Lean 4 invariant proofs over all event histories of the receiver model, step theorems on the sender model + differential correspondence",
@@ -304,7 +304,10 @@ PROPS["C18"] = dict(
                 "state after 'expiry, then transmission' is characterised (unack_fin_round_state, over the mode-independent htm_fin_state), so as long as the clock keeps both counters below "
                 "their limits (FairT, limits derived) every expiry is followed by the transmission of that same Finished PDU and the outcome recorded stands "
                 "(C18_closure_finished_repeated), and whichever of them reaches the sender ends it and its user is told the receiver's outcome (C18_closure_lost_finisheds); at the limit "
-                "the receiver ends quietly (C18_recv_closure_ends_quietly)."),
+                "the receiver ends quietly (C18_recv_closure_ends_quietly). How the receiver gets into that loop (Props/C18m.lean): the truthful EOF arriving at an unacknowledged "
+                "receiver whose Metadata asked for closure and that holds the whole file finalises the delivery NoError / Complete and makes the Finished PDU due (unackFinish_success, "
+                "closure_eof_state); the next transmission puts it in the loop's starting state (closure_enters_wait); so from the EOF on, the Finished PDU lost up to limit-1 times still "
+                "ends the sender with NoError / Complete told to its user (C18_closure_from_eof)."),
     level_note=RECV_SEND_NOTE + " 'The sender transmits metadata, the file data once and EOF' is C07's first-pass statement (send engine oracle send_shape); "
                "that the sender waits 'up to its limits' is C17.",
     rule=("recv engine: one history in three is unacknowledged (closure on/off, fault handlers incl. ignore/abandon/suspend for CheckLimitReached), losses of metadata / data / EOF, "
